@@ -264,7 +264,8 @@ def materialise(case, d):
     with open(nf, "w") as f:
         for fr in case["nb"]:
             f.write("id     cn     neighborlist\n")
-            for i, r in enumerate(fr):
+            for i in common.row_order(fr, "n"):
+                r = fr[i]
                 f.write(f"{i + 1} {len(r)} " + " ".join(str(j + 1) for j in r) + "\n")
     wf = None
     if case["wt"] is not None:
@@ -272,7 +273,8 @@ def materialise(case, d):
         with open(wf, "w") as f:
             for fr in case["wt"]:
                 f.write("id   cn   facearealist\n")
-                for i, r in enumerate(fr):
+                for i in common.row_order(fr, "w"):
+                    r = fr[i]
                     f.write(f"{i + 1} {len(r)} " + " ".join(r) + "\n")
     return nf, wf
 
